@@ -21,8 +21,9 @@ class ProcLoop:
     `fields`: node fields the body may change; `back`: extra obligations at the back edge, given (head, state)."""
     variant = None
 
-    def __init__(self, lib, cls, fields, back=None, head=None, props=("C03", "C10"), heaps=()):
+    def __init__(self, lib, cls, fields, back=None, head=None, props=("C03", "C10"), heaps=(), assume_only=None):
         self.lib, self.cls, self.fields, self.back, self.head, self.props, self.heaps = lib, cls, fields, back, head, props, heaps
+        self.assume_only = assume_only      # standing assumptions about the configuration (not re-proved)
 
     def havoc(self, ex, st, node, ordinal):
         tag = "lh%s" % _n()
@@ -61,6 +62,8 @@ class ProcLoop:
         if self.head:
             out += self.head(ex, st, mode)
         if mode == "assume":
+            if self.assume_only:
+                out += self.assume_only(st)
             st.ghost["head"] = dict(st.f)
             st.ghost["head_now"] = st.now
             return out
